@@ -9,13 +9,19 @@ projection of the scenario onto i (its construction, its own mutations, its own 
 way in another clean child.  Oracle: every use of connection i answers in the scenario what it
 answers alone, and i ends in the state it ends in alone.
 
+Mutations: register a session, add a level (with or without the not_contains argument), set a pattern,
+edit a level's not_contains IN PLACE (append / extend / += / insert) -- on deep-copied levels and on
+levels created at run time (registered sessions, added levels, levels the user built and passed as
+privilege_levels=) --, edit failed_when_contains in place, delete an added level.
+
 Uses: _determine_current_priv(prompt), get_prompt(), acquire_priv(level) and send_command(line)
 over a simulated device (harness/simdevice.py; every connection talks to its OWN device, all
 devices carry the same host name so that the prompts coincide).
 
 A generic observer runs beside the scenario: every container (dict, list, set, deque, bytearray)
 found in vars(cls) of the driver / channel / transport classes (whole MRO), of every class defined
-in a scrapli module, and in the globals of every scrapli module is snapshotted before and after every
+in a scrapli module, and in the globals of every scrapli module, and every mutable default value of the functions
+and methods found there (an object all calls share), is snapshotted before and after every
 operation; so are the mutable containers reachable from two connections at once.  Contents that
 change while a connection is constructed, mutated or used are shared mutable state."""
 import collections
@@ -123,10 +129,30 @@ def shared_owners(conns):
     return out
 
 
+def _function_defaults(v):
+    """mutable default values of a function / method defined in a scrapli module: objects every call shares"""
+    f = v.__func__ if isinstance(v, (staticmethod, classmethod)) else (v.fget if isinstance(v, property) else v)
+    f = getattr(f, "__wrapped__", f)
+    if not isinstance(f, types.FunctionType) or not _is_scrapli_module(getattr(f, "__module__", "") or ""):
+        return
+    for n, d in enumerate(f.__defaults__ or ()):
+        if isinstance(d, CONTAINERS):
+            yield "__defaults__[%d]" % n, d
+    for k, d in sorted((f.__kwdefaults__ or {}).items()):
+        if isinstance(d, CONTAINERS):
+            yield "__kwdefaults__[%s]" % k, d
+
+
 def shared_values(owners):
     for label, owner in owners:
         for a, v in list(vars(owner).items()):
-            if a in SKIP_ATTRS or (a.startswith("__") and a.endswith("__")) or not _watched(v):
+            if a in SKIP_ATTRS:
+                continue
+            if isinstance(v, (types.FunctionType, staticmethod, classmethod, property)):
+                for where, d in _function_defaults(v):          # dunder methods included (__init__)
+                    yield label, "%s.%s" % (a, where), d
+                continue
+            if (a.startswith("__") and a.endswith("__")) or not _watched(v):
                 continue      # dunder names belong to the interpreter (e.g. copyreg's __slotnames__ memo)
             yield label, a, v
 
@@ -202,13 +228,34 @@ def _device(platform):
     return d
 
 
+def definition_levels(p):
+    """the platform definition's privilege levels (read only)"""
+    import importlib
+    if p in CORE:
+        return importlib.import_module("scrapli.driver.core.%s.base_driver" % p).PRIVS
+    m = importlib.import_module("scrapli_community.scrapli.networkdriver.scrapli_networkdriver")
+    return m.SCRAPLI_PLATFORM["defaults"]["privilege_levels"]
+
+
+def user_built_levels(p):
+    """what a user writes who builds the levels himself: new PrivilegeLevel objects with the platform's values, not_contains
+    given only where there is something to give"""
+    from scrapli.driver.network.base_driver import PrivilegeLevel
+    out = {}
+    for k, v in definition_levels(p).items():
+        a = (v.pattern, v.name, v.previous_priv, v.deescalate, v.escalate, v.escalate_auth, v.escalate_prompt)
+        out[k] = PrivilegeLevel(*a, list(v.not_contains)) if v.not_contains else PrivilegeLevel(*a)
+    return out
+
+
 def _new_conn(op):
     from . import simdevice as sd
     import scrapli.factory as F
     is_async = bool(op["async"])
     fac = F.AsyncScrapli if is_async else F.Scrapli
+    extra = {"privilege_levels": user_built_levels(op["platform"])} if op.get("levels") == "user" else {}
     c = fac(platform=op["platform"], host=HOST, transport="asynctelnet" if is_async else "telnet", auth_bypass=True,
-            timeout_ops=0, timeout_transport=0, timeout_socket=0)
+            timeout_ops=0, timeout_transport=0, timeout_socket=0, **extra)
     dev = _device(op["platform"])
     tcls = sd.AsyncScriptedTransport if is_async else sd.ScriptedTransport
     t = tcls(dev, ("whole",), None, base_transport_args=c._base_transport_args)
@@ -221,7 +268,8 @@ def _new_conn(op):
 def snap_conn(cn):
     c = cn["c"]
     levels = [[k, [p.pattern, p.name, p.previous_priv, p.deescalate, p.escalate, bool(p.escalate_auth), p.escalate_prompt],
-               list(p.not_contains)] for k, p in c.privilege_levels.items()]
+               list(p.not_contains) if isinstance(p.not_contains, (list, tuple)) else ["<%s>" % type(p.not_contains).__name__]]
+              for k, p in c.privilege_levels.items()]
     return {"levels": levels, "fwc": list(c.failed_when_contains), "pattern": c.comms_prompt_pattern,
             "channel_pattern": c.channel._base_channel_args.comms_prompt_pattern,
             "graph": sorted([k, sorted(v)] for k, v in c._priv_graph.items()),
@@ -273,8 +321,9 @@ def run_ops(ops, observe="ends"):
                     src = c.privilege_levels[op["like"]]
                     if op["name"] in c.privilege_levels:
                         raise ValueError("exists")
-                    c.privilege_levels[op["name"]] = PrivilegeLevel(src.pattern, op["name"], src.previous_priv, src.deescalate, src.escalate,
-                                                                    src.escalate_auth, src.escalate_prompt, list(op.get("nc", [])))
+                    a = (src.pattern, op["name"], src.previous_priv, src.deescalate, src.escalate, src.escalate_auth, src.escalate_prompt)
+                    # "nc" absent: the level is built without the not_contains argument
+                    c.privilege_levels[op["name"]] = PrivilegeLevel(*a, list(op["nc"])) if "nc" in op else PrivilegeLevel(*a)
                     c.update_privilege_levels()
                     ob = ["done"]
                 elif k == "setpattern":
@@ -285,12 +334,28 @@ def run_ops(ops, observe="ends"):
                     c.privilege_levels[op["level"]].not_contains.append(op["s"])
                     c.update_privilege_levels()
                     ob = ["done"]
+                elif k in ("extendnc", "iaddnc", "insertnc"):
+                    lv = c.privilege_levels[op["level"]]
+                    if k == "extendnc":
+                        lv.not_contains.extend(list(op["l"]))
+                    elif k == "iaddnc":
+                        lv.not_contains += list(op["l"])
+                    else:
+                        lv.not_contains.insert(0, op["l"][0])
+                    c.update_privilege_levels()
+                    ob = ["done"]
                 elif k == "dellevel":
                     del c.privilege_levels[op["level"]]
                     c.update_privilege_levels()
                     ob = ["done"]
                 elif k == "appendfwc":
                     c.failed_when_contains.append(op["s"])
+                    ob = ["done"]
+                elif k in ("extendfwc", "iaddfwc"):
+                    if k == "extendfwc":
+                        c.failed_when_contains.extend(list(op["l"]))
+                    else:
+                        c.failed_when_contains += list(op["l"])
                     ob = ["done"]
                 elif k == "priv":
                     ob = ["levels", list(c._determine_current_priv(op["prompt"]))]
@@ -509,16 +574,24 @@ def is_behavioural(f):
     return f.startswith("connection ")
 
 
+def is_answer(f):
+    """a use of a connection answered differently (stronger than: it ends in a different state)"""
+    return f.startswith("connection ") and ": answers " in f
+
+
 def shrink(pool, ops, fails, budget=60):
     """drop operations / unused connections while the same KIND of failure remains (a behavioural difference stays one)"""
     cur = [dict(o) for o in ops]
     need_behaviour = any(is_behavioural(f) for f in fails)
+    need_answer = any(is_answer(f) for f in fails)
 
     def failing(t):
         try:
             f = evaluate(pool, t)[0]
         except RuntimeError:
             return False
+        if need_answer:
+            return any(is_answer(x) for x in f)
         return any(is_behavioural(x) for x in f) if need_behaviour else bool(f)
 
     changed = True
@@ -594,9 +667,12 @@ def gen_scenario(rng, plats):
     p = rng.choice(plats)
     n = rng.choice([2, 2, 2, 3])
     ops, conn_plat, names = [], [], []
+    user_levels = rng.random() < 0.25        # the twins pass levels they built themselves (privilege_levels=...)
     for i in range(n):
         q = p if (i < 2 or rng.random() < 0.7) else rng.choice(plats)
         ops.append({"op": "new", "platform": q, "async": rng.random() < 0.4})
+        if user_levels and (i < 2 or rng.random() < 0.5):
+            ops[-1]["levels"] = "user"
         conn_plat.append(q)
         names.append(list(platform_levels(q)))
     used_sessions = []
@@ -609,9 +685,13 @@ def gen_scenario(rng, plats):
 
     def mutation(i):
         q = conn_plat[i]
-        kinds = ["register", "register", "appendnc", "appendnc", "setpattern", "addlevel", "appendfwc", "dellevel"]
+        kinds = ["register", "register", "appendnc", "appendnc", "setpattern", "addlevel", "appendfwc", "dellevel",
+                 "extendnc", "iaddnc", "insertnc", "addlevel", rng.choice(["extendfwc", "iaddfwc"])]
         k = rng.choice(kinds)
         lv = rng.choice(names[i]) if names[i] else "exec"
+        made = [x for x in names[i] if x not in platform_levels(q)]       # created at run time: no deep copy of a definition's level
+        if made and k in ("appendnc", "extendnc", "iaddnc", "insertnc") and rng.random() < 0.6:
+            lv = rng.choice(made)
         if k == "register":
             nm = rng.choice(SESSION_NAMES)
             if nm not in names[i]:
@@ -620,6 +700,10 @@ def gen_scenario(rng, plats):
             return {"op": "register", "conn": i, "name": nm}
         if k == "appendnc":
             return {"op": "appendnc", "conn": i, "level": lv, "s": rng.choice(NC_POOL)}
+        if k in ("extendnc", "iaddnc", "insertnc"):
+            return {"op": k, "conn": i, "level": lv, "l": rng.sample(NC_POOL, 1 if k == "insertnc" else rng.choice([1, 2]))}
+        if k in ("extendfwc", "iaddfwc"):
+            return {"op": k, "conn": i, "l": rng.sample(FWC_POOL, rng.choice([1, 2]))}
         if k == "setpattern":
             base = platform_levels(q)
             pat = rng.choice(sorted(base.values()) + [r"^edited#$", r"^sw1[>#]\s?$"])
@@ -627,6 +711,8 @@ def gen_scenario(rng, plats):
         if k == "addlevel":
             nm = rng.choice(["maint", "alpha", "beta", "ops"])
             op = {"op": "addlevel", "conn": i, "name": nm, "like": lv, "nc": rng.choice([[], ["zz"], ["sw1"], ["(config-if"]])}
+            if rng.random() < 0.5:
+                del op["nc"]                      # built without the argument
             if nm not in names[i]:
                 names[i].append(nm)
             return op
@@ -709,7 +795,28 @@ def corpus(plats):
                            {"op": "send", "conn": 0, "cmd": "show ok"}],
                     [{"op": "acquire", "conn": 1, "target": "configuration"}, {"op": "priv", "conn": 1, "prompt": HOST + "(config)#"},
                      {"op": "send", "conn": 1, "cmd": "show ok"}])
+        # IN-PLACE container edits of levels created at run time (registered sessions; levels the user built; a level added
+        # without not_contains) and of deep-copied ones, on one of two twins; the twin and a connection built afterwards are used
+        pr = HOST + "(config-s)# "
+        for edit in ({"op": "appendnc", "s": "sw1"}, {"op": "extendnc", "l": ["zz", "sw1"]}, {"op": "iaddnc", "l": ["(config"]}):
+            head = [n("cisco_nxos", a), n("cisco_nxos", not a), {"op": "register", "conn": 0, "name": "alpha"}, {"op": "register", "conn": 1, "name": "beta"},
+                    dict(edit, conn=0, level="alpha")]
+            out.append(head + [{"op": "priv", "conn": 1, "prompt": pr}, {"op": "priv", "conn": 0, "prompt": pr}, n("cisco_iosxe", a),
+                               {"op": "priv", "conn": 2, "prompt": HOST + ">"}, {"op": "priv", "conn": 1, "prompt": HOST + "#"}])
+        u = lambda p, x: dict(n(p, x), levels="user")  # noqa: E731
+        head = [u("cisco_iosxe", a), u("cisco_iosxe", not a), {"op": "iaddnc", "conn": 0, "level": "privilege_exec", "l": ["sw1"]},
+                {"op": "insertnc", "conn": 1, "level": "configuration", "l": ["(config-if"]}]
+        both_orders(head, [{"op": "priv", "conn": 0, "prompt": HOST + "#"}, {"op": "acquire", "conn": 0, "target": "configuration"}],
+                    [{"op": "priv", "conn": 1, "prompt": HOST + "#"}, {"op": "acquire", "conn": 1, "target": "configuration"}])
+        head = [n("arista_eos", a), u("arista_eos", a), {"op": "addlevel", "conn": 0, "name": "maint", "like": "privilege_exec"},
+                {"op": "extendnc", "conn": 0, "level": "maint", "l": ["sw1"]}, {"op": "extendfwc", "conn": 1, "l": ["fine"]}]
+        out.append(head + [{"op": "priv", "conn": 1, "prompt": HOST + ">"}, {"op": "priv", "conn": 0, "prompt": HOST + "#"},
+                           {"op": "send", "conn": 0, "cmd": "show ok"}, {"op": "send", "conn": 1, "cmd": "show ok"}])
     if COMMUNITY in plats:
+        head = [n(COMMUNITY), dict(n(COMMUNITY, True), levels="user"), {"op": "register", "conn": 0, "name": "alpha"},
+                {"op": "extendnc", "conn": 0, "level": "alpha", "l": ["sw1"]}, {"op": "iaddfwc", "conn": 0, "l": ["fine"]}]
+        out.append(head + [{"op": "priv", "conn": 1, "prompt": HOST + ">"}, {"op": "send", "conn": 1, "cmd": "show ok"},
+                           {"op": "priv", "conn": 0, "prompt": HOST + ">"}])
         head = [n(COMMUNITY), n(COMMUNITY, True), {"op": "register", "conn": 0, "name": "alpha"}, {"op": "register", "conn": 1, "name": "beta"},
                 {"op": "appendnc", "conn": 1, "level": "privilege_exec", "s": "sw1"}]
         both_orders(head, [{"op": "priv", "conn": 0, "prompt": HOST + "(config-s)#"}, {"op": "priv", "conn": 0, "prompt": HOST + "#"}],
